@@ -61,7 +61,12 @@ func (c *FCtx) xofCall(st *State, key string, call *ast.CallExpr, recvExpr ast.E
 			c.oblige(st, "safety", "xof-write-after-read "+c.exprStr(call), Eq(xv.RPos, Num(0)), c.eng.pos(call))
 			st.assume(Eq(xv.RPos, Num(0)))
 			nv := xv
-			nv.Arr = catBytes(xv.Arr, xv.Len, subBytes(c.memTerm(st, p), p.Off, p.Len), p.Len)
+			if xv.Len.IsNum() && xv.Len.Num.Sign() == 0 {
+				// first Write into a fresh XOF: cat(0-array, 0, sub(M,o,n), n) is extensionally the canonical string sub(M,o,n)
+				nv.Arr = subBytes(c.memTerm(st, p), p.Off, p.Len)
+			} else {
+				nv.Arr = catBytes(xv.Arr, xv.Len, subBytes(c.memTerm(st, p), p.Off, p.Len), p.Len)
+			}
 			nv.Len = Add(xv.Len, p.Len)
 			st.cells[cell] = nv
 			st.written[cell] = true
